@@ -177,6 +177,10 @@ def spellings(tier: str) -> List[Dict[str, Any]]:
     add("symlinked-parent", spelling="symlinked-parent", layout="symlink-parent", loc="tbl", **one)
     add("absolute-named-data", spelling="absolute-dir-named-data", layout="abs", loc="data", **one)
     add("absolute-named-metadata", spelling="absolute-dir-named-metadata", layout="abs", loc="metadata", **one)
+    # pre-built files registered under non-canonical spellings of their table-relative path
+    add("absolute-spelled-files", spelling="absolute", layout="abs", loc="tbl", depth=d_sp, max_open=1, base=[("append",)],
+        alphabet=(("append",), ("delete_file", "newest"), ("expire", "all_but_current"), ("gc", 0), ("gc", hist.HOUR_MS),
+                  ("age", 7200)) + hist.SPELLED_OPS)
     for nm in ("d", "data", "m", "meta", "metadata"):
         add(f"relative-{nm}", spelling=f"relative-prefix-of-{'data' if nm in ('d', 'data') else 'metadata'}",
             layout="rel", loc=nm, **one)
@@ -209,7 +213,7 @@ def run(tier: str, seed: int) -> Report:
     rep.cov["variants"] = len(V)
     rep.cov["max_depth"] = max(v["depth"] for v in V)
     rep.cov["depth_per_variant"] = {v["name"]: v["depth"] for v in V}
-    rep.cov["alphabet"] = [hist.op_label(o) for o in C05_ALPHABET]
+    rep.cov["alphabet"] = [hist.op_label(o) for o in C05_ALPHABET + hist.SPELLED_OPS]
     if tier == "thorough":
         main = V[0]
         d = hist.differential(PROP, tier, seed, main, 4, "checks.c05", res["visited"][main["name"]],
@@ -242,7 +246,7 @@ def run(tier: str, seed: int) -> Report:
 def replay(case: Dict[str, Any]) -> Dict[str, Any]:
     det = case["detail"]
     v = dict(det["variant"])
-    v["alphabet"] = list(C05_ALPHABET)
+    v["alphabet"] = list(C05_ALPHABET + hist.SPELLED_OPS)
     ops = [hist.parse_op(x) for x in det["history"]]
     rep = Report(PROP, case.get("tier", "quick"), case.get("seed", 0), LEVEL)
     cwd = os.getcwd()
